@@ -140,8 +140,8 @@ func StartProc(c Config) (*Proc, error) {
 		cmd.Dir = c.SB.Area
 		cmd.Env = []string{"PATH=/usr/bin:/bin", "HOME=" + c.SB.Area,
 			"ROOT_ACCESS_KEY=" + c.Root.Access, "ROOT_SECRET_KEY=" + c.Root.Secret}
-		if c.HookSock != "" {
-			cmd.Env = append(cmd.Env, "VERIF_HOOK_SOCK="+c.HookSock)
+		if c.HookDir != "" {
+			cmd.Env = append(cmd.Env, "VERIF_HOOK_DIR="+c.HookDir)
 		}
 		cmd.Stdout = lockedWriter{p}
 		cmd.Stderr = lockedWriter{p}
